@@ -105,6 +105,9 @@ func solveOne(g *Gen, o *Obligation, workDir string, timeoutMs int) *Verdict {
 	ctx, cancel := context.WithCancel(context.Background())
 	defer cancel()
 	ch := make(chan ans, len(solvers))
+	if o.Cover && timeoutMs > 3000 {
+		timeoutMs = 3000
+	}
 	for si, sp := range solvers {
 		file := fmt.Sprintf("%s.%d.smt2", base, si)
 		if err := os.WriteFile(file, []byte(g.oblText(o, sp.head)), 0o644); err != nil {
